@@ -379,7 +379,7 @@ func (e *Engine) bindClauses(bc *BoundContract) error {
 	for i := range fc.Clauses {
 		cl := &fc.Clauses[i]
 		switch cl.Kind {
-		case "requires", "ensures", "invariant", "decreases", "modifies", "fresh", "assert", "split", "appends", "copies":
+		case "requires", "ensures", "invariant", "decreases", "modifies", "fresh", "assert", "split", "appends", "appendsAll", "copies":
 			if ci >= len(calls) {
 				return fmt.Errorf("%s:%d: clause/statement mismatch", fc.File, cl.Line)
 			}
@@ -394,6 +394,8 @@ func (e *Engine) bindClauses(bc *BoundContract) error {
 				bc.Asserts = append(bc.Asserts, ClauseExpr{call.Args[0], cl, bc})
 			case "appends":
 				bc.Appends = append(bc.Appends, [2]ast.Expr{call.Args[0], call.Args[1]})
+			case "appendsAll":
+				bc.AppendsAll = append(bc.AppendsAll, [2]ast.Expr{call.Args[0], call.Args[1]})
 			case "copies":
 				bc.Copies = append(bc.Copies, [3]ast.Expr{call.Args[0], call.Args[1], call.Args[2]})
 			case "split":
